@@ -52,6 +52,14 @@ def isizeMax : Nat := 9223372036854775807
 /-- `a * b` on `usize` with overflow checks on. -/
 @[inline] def umul (a b : Nat) : Option Nat := if a * b ≤ usizeMax then some (a * b) else none
 
+/-- `a % b` on `usize` (panics on a zero divisor) -/
+@[inline] def umod (a b : Nat) : Option Nat := if b = 0 then none else some (a % b)
+/-- `a / b` on `usize` (panics on a zero divisor) -/
+@[inline] def udiv (a b : Nat) : Option Nat := if b = 0 then none else some (a / b)
+/-- `x.clamp(lo, hi)` on f64: `assert!(lo <= hi)` (so a NaN bound panics), then the obvious -/
+@[inline] def fclamp {F} [Scalar F] (x lo hi : F) : Option F :=
+  if Scalar.le lo hi then some (if Scalar.lt x lo then lo else if Scalar.lt hi x then hi else x) else none
+
 /-- `d[i]` -/
 @[inline] def index {F} (d : Array F) (i : Nat) : Option F := d[i]?
 /-- `d[i] = v` -/
